@@ -1587,6 +1587,15 @@ class Engine:
                 return as_int(v.t) != 0
             return truthy(v.t)
         if isinstance(v, VSeq):
+            if v.ghost is not None and not self.spec_mode:
+                # truth value of a sequence object without __bool__ is len(obj) != 0: for a lazily produced sequence that
+                # is a call of its (exhausting) __len__, accounted like len() itself (C12)
+                v.ghost['len_called'] = True
+                v.ghost['len_calls'] = v.ghost.get('len_calls', 0) + 1
+                if not v.ghost.get('failed_probe'):
+                    v.ghost['len_before_failed_probe'] = True
+                v.ghost['pulled'] = v.length
+                self.trace.append(('len', v.name))
             return v.length > 0
         if isinstance(v, (VFn, VBM, VBI, VCls, VMod, VExc, VRe)):
             return True
